@@ -361,14 +361,20 @@ namespace cds { namespace gc {
             void extend()
             {
                 assert( list_head_ != nullptr );
-                assert( current_block_ == list_tail_ );
-                assert( current_cell_ == current_block_->last());
+                assert( current_block_ != nullptr );
 
                 retired_block* block = retired_allocator::instance().alloc();
                 assert( block->next_ == nullptr );
 
-                current_block_ = list_tail_ = list_tail_->next_ = block;
-                current_cell_ = block->first();
+                // Append new block. The write cursor moves to it only if the array is completely full;
+                // after scan() has freed something the cursor is inside old blocks and must stay there,
+                // otherwise the cells skipped keep stale (already disposed or moved) pointers
+                list_tail_ = list_tail_->next_ = block;
+                if ( current_cell_ == current_block_->last()) {
+                    assert( current_block_->next_ == block );
+                    current_block_ = block;
+                    current_cell_ = block->first();
+                }
                 ++block_count_;
                 CDS_HPSTAT( ++extend_call_count_ );
             }
